@@ -11,3 +11,4 @@ Definition lower_bound (cmp : Z -> Z -> bool) (l : list Z) (lo hi : Z) (v : Z) :
   lo + Z.of_nat (lb cmp (firstn (Z.to_nat (hi - lo)) (skipn (Z.to_nat lo) l)) v).
 Definition set_insert (cmp : Z -> Z -> bool) (l : list Z) (v : Z) : list Z * Z :=
   let (l', i) := insert_val cmp l v in (l', Z.of_nat i).
+Definition vec_erase (l : list Z) (i : Z) : list Z := firstn (Z.to_nat i) l ++ skipn (S (Z.to_nat i)) l.
